@@ -5,6 +5,7 @@
 #include <iostream>
 #include <map>
 #include <string>
+#include <stdexcept>
 #include <vector>
 #include <csignal>
 #include <unistd.h>
@@ -50,6 +51,11 @@ int main() {
                 if (it == reg.end()) { w.key("error").str("unknown op " + op); }
                 else it->second(j, w);
             }
+        } catch (const std::out_of_range& e) {
+            // a checked container access (std::vector::at, ...) inside nmtools went out of range
+            nmv::W w2; w2.beg_obj(); w2.key("oob").str(e.what()); w2.end_obj();
+            std::cout << w2.s << "\n" << std::flush;
+            continue;
         } catch (const std::exception& e) {
             // close any structure the handler left open is impossible; emit a fresh object
             nmv::W w2; w2.beg_obj(); w2.key("error").str(e.what()); w2.end_obj();
